@@ -173,16 +173,20 @@ uint64_t cmb_timeseries_summarize(const struct cmb_timeseries *tsp,
                                   struct cmb_wtdsummary *wsp)
 {
     cmb_assert_release(tsp != NULL);
-    cmb_assert_release(tsp->ta != NULL);
     cmb_assert_release(wsp != NULL);
 
     const struct cmb_dataset *dsp = (struct cmb_dataset *)tsp;
     cmb_assert_release(dsp->cookie == CMI_INITIALIZED);
-    cmb_assert_debug(dsp->xa != NULL);
 
     cmb_wtdsummary_initialize(wsp);
     const uint64_t un = cmb_timeseries_count(tsp);
-    cmb_assert_debug(un > 0u);
+    if (un == 0u) {
+        /* Nothing was recorded, the summary is empty */
+        return 0u;
+    }
+
+    cmb_assert_release(tsp->ta != NULL);
+    cmb_assert_debug(dsp->xa != NULL);
     for (uint64_t ui = 0u; ui < un - 1u; ui++) {
         const double x = dsp->xa[ui];
         const double w = tsp->wa[ui];
